@@ -206,6 +206,14 @@ func judgeC12(hst Hist) *h.Verdict {
 				return v.Failf("release-body", "step %d: 204 with a body %.100s", step, res.Body)
 			}
 			v.Label("release")
+		case "fill":
+			if res.Status != 200 {
+				return v.Failf("update-status", "step %d: update number %d of a session whose record is being filled (aiming at %d octets) answered %d %.200s, want 200", step, res.FillSteps, res.FillTarget, res.Status, res.Body)
+			}
+			v.Label("record-filled-to-the-limit-in-small-steps")
+			if res.FillTarget != 0 {
+				v.Label("last-report-built-to-the-octet")
+			}
 		case "bystanders":
 			if res.Status != 201 {
 				return v.Failf("create-status/bystander", "step %d: %s answered %d: %.300s", step, res.Path, res.Status, res.Body)
@@ -288,4 +296,26 @@ func TestC12Contract(t *testing.T) { h.Run(t, "C12", "histories", genC12, judgeC
 
 func TestC12Volume(t *testing.T) {
 	h.Run(t, "C12", "volume", func(t *rapid.T) Hist { return genVolumeHist(t, true) }, volumeOf(judgeC12, true))
+}
+
+// Fill: the contract holds for a session whose record is almost full: the update that does not fit any more and the
+// release that carries a last report are answered like any other.
+func TestC12Fill(t *testing.T) {
+	h.Run(t, "C12", "fill", func(t *rapid.T) Hist {
+		var hst Hist
+		for i := 0; i < h.Scale(1, 2); i++ {
+			hst.Subs = append(hst.Subs, Sub{Acct: [3]Acct{{1, 1 << 40}, {1, 1 << 40}, {1, 5000}}})
+			hst.Ops = append(hst.Ops, Op{K: "create", S: i, Name: "smf", UUs: []UU{{RG: 1, Req: 10}}})
+			hst.Ops = append(hst.Ops, Op{K: "fill", S: i, Sess: 0, RG: 2, Amt: int64(rapid.SampledFrom([]int{-400, -200, -60, -6, 0, 1, 6, 12}).Draw(t, "slack"))})
+			hst.Ops = append(hst.Ops, Op{K: "release", S: i, Sess: 0, UUs: []UU{{RG: 2, Jumbo: rapid.SampledFrom([]int{0, 1, 40, 100}).Draw(t, "lastReport")}}})
+			hst.Ops = append(hst.Ops, Op{K: "create", S: i, Name: "smf", UUs: []UU{{RG: 1, Req: 10}}})
+			hst.Ops = append(hst.Ops, Op{K: "update", S: i, Sess: 0, UUs: []UU{{RG: 2, Req: 5}}})
+			hst.Ops = append(hst.Ops, Op{K: "release", S: i, Sess: 0})
+		}
+		return hst
+	}, func(hst Hist) *h.Verdict {
+		v := judgeC12(hst)
+		v.NonTrivial = true
+		return v
+	})
 }
